@@ -116,6 +116,37 @@ def lSurvives (items : List LItem) : Nat → Nat
     | .ok _ => n + 1
     | .error _ => lSurvives items n
 
+/-! ## the same condition in closed form -/
+
+def optLe (n : Nat) : Option Nat → Bool
+  | some q => decide (q ≤ n)
+  | none => false
+
+def optLt (n : Nat) : Option Nat → Bool
+  | some q => decide (q < n)
+  | none => false
+
+def isConstAt (items : List LItem) (k : Nat) : Bool :=
+  match items[k]? with
+  | some it => it.isConst
+  | none => false
+
+/-- what position `i` needs: every symbol is declared; every script constant
+read is an *earlier constant* of the list; and for a constant, its drop function
+and everything any body up to here refers to sits at or before this position -/
+def itemReady (items : List LItem) (i : Nat) (it : LItem) : Bool :=
+  it.funcs.all Option.isSome
+    && it.consts.all (fun c => match c with | some k => decide (k < i) && isConstAt items k | none => false)
+    && (!it.isConst || (optLe i it.drop && (List.range (i + 1)).all fun j => (lFuncs items j).all (optLe i)))
+
+def itemsReady (items : List LItem) : Nat → List LItem → Bool
+  | _, [] => true
+  | i, it :: rest => itemReady items i it && itemsReady items (i + 1) rest
+
+/-- the static form of "the loop completes": decided positionally, no state -/
+def lirReady (items : List LItem) : Bool :=
+  itemsReady items 0 items && (List.range items.length).all fun j => (lFuncs items j).all (optLt items.length)
+
 /-! ## statement-level facts of the source this loop rests on (translator target `c14emit`) -/
 
 /-- the groups `Lowerer::program` puts into `Lir.functions` -/
